@@ -153,6 +153,7 @@ func c19Run(c *fw.Ctx) {
 	defer vtime.SetReal()
 	w := newC19World()
 	defer w.close()
+	defer c19RunProviders(c, w.auth.IdP)
 	revokes := []struct {
 		name string
 		a    harness.AuthAnswer
@@ -346,7 +347,7 @@ func init() {
 		Level: "model_checking",
 		Rule: "every history of the family: IdP issuing {a refresh token, none}; full browser login through the REAL proxy -> REAL authenticator (back channel over loopback) -> scripted stateful IdP (9 requests), optionally (an hour later, so that the authenticator's own cookie is past its lifetime while the proxy session lives on) a token refresh through the authenticator and a further revalidation of the proxy session, sign-out at the proxy (plain, or carrying X-Forwarded-Host naming a foreign / sibling host, or X-Forwarded-Proto), GET of the signed authenticator URL, POST confirmation with {session cookie, no cookie, forged cookie} x signed URL {fresh, replayed after 1 s, replayed after 301 s, tampered signature, tampered return address, re-signed out-of-domain return address} x IdP revoke outcome {200, 400, 401, 403, 404, 429, 500, 503, connection reset}, then reuse of the saved proxy cookie after {10 s, validity TTL + 10 s (thorough: token lifetime + 100 s, one day)}; " +
 			"oracle = combined-state model: proxy clears its cookie and sends the browser to the authenticator with a return address on the same host that the authenticator's own checks accept; the authenticator clears its cookie and returns the browser only after the IdP accepted the revocation, otherwise >= 500 page and cookie kept; nothing happens for an invalid signed URL; after a successful revoke the old proxy cookie is refused at the first request whose revalidation is due; " +
-			"states = histories executed (each on the real code, so also traces_validated_against_impl), transitions = requests; distinct_nontrivial = distinct (revoke outcome, confirmation kind, URL kind, reuse gap, status, cleared, revoked, served)",
+			"(provider-revocation) GoogleProvider.Revoke and OktaProvider.Revoke at their own API against 12 identity-provider answers x session {with, without} refresh token: success may be reported only for a 200 or the documented already-revoked answer; states = histories executed (each on the real code, so also traces_validated_against_impl), transitions = requests; distinct_nontrivial = distinct (revoke outcome, confirmation kind, URL kind, reuse gap, status, cleared, revoked, served)",
 		Assumptions:    []string{"Okta flavour; the IdP is scripted but stateful (a revoked token is reported inactive afterwards)", "virtual clock shared by both services"},
 		QuickBudget:    5 * time.Minute,
 		ThoroughBudget: 10 * time.Minute,
